@@ -82,7 +82,7 @@ TEXT = {
     "C18": {
         "technique": "runtime monitor: offline checker over the bank-event ledger of every mint-epoch block (coinbase, burn, transfer events of the FinalizeBlock response) + minter and supply-with-offset queries against an exactly computed emission schedule",
         "level": "Generated parameter sets run for 5..60 real consecutive mint epochs on a real app; every epoch block's bank events and the supply/minter queries are compared with the schedule (minted = floor(provision), per-destination floors, community pool remainder, empty mint account, reported supply + minted, reduction exactly at lastReduction + period, nothing before the start epoch).",
-        "note": "Trusted: the SDK's bank events as a faithful ledger (cross-checked by the mint-account balance and the supply queries). Parameters are set through the keeper's SetParams/SetMinter. Provisions above the developer vesting balance (hook failure) belong to C17's integrated part.",
+        "note": "Trusted: the SDK's bank events as a faithful ledger (cross-checked by the mint-account balance and the supply queries). Parameters are set through the keeper's SetParams/SetMinter. When the developer share of an epoch exceeds what is left in the developer vesting account the mint hook fails as a whole (containment is C17's clause): the monitor then requires that nothing was minted, the reported supply and the minter are unchanged, and the schedule resumes from the unchanged state.",
     },
     "C10": {
         "technique": "runtime monitor: reference-model (price-segment list observed by the monitor at every block end) differential check of every TWAP query; before/after comparison across pruning passes",
